@@ -365,6 +365,10 @@ impl Minimiser<'_> {
                 c.facts.version = (0, 0, 0);
                 progress |= self.try_apply(&mut s, c);
             }
+            // renumber term ids densely (monotone, 1 and 118 and 0 fixed) so the scenario reads easily
+            if let Some(c) = renumbered(&s) {
+                progress |= self.try_apply(&mut s, c);
+            }
             // disk: lower the crash index
             if let Some(d) = s.disk.clone() {
                 if let Some(k) = d.crash_at {
@@ -388,4 +392,160 @@ pub fn canonicalised(r: &ReplicaSpec) -> ReplicaSpec {
     }
     let _ = Order::canonical();
     c
+}
+
+/// Monotone renumbering of term ids to small numbers; ids 0, 1, 118 and ids >= 10^7 stay as they are.
+fn renumbered(s: &Scenario) -> Option<Scenario> {
+    use crate::scenario::{Edit, Op};
+    use std::collections::{BTreeMap, BTreeSet};
+    let mut ids: BTreeSet<u32> = s.facts.terms.iter().map(|t| t.id).collect();
+    for (c, p) in &s.facts.isa {
+        ids.insert(*c);
+        ids.insert(*p);
+    }
+    for k in KINDS {
+        for r in s.facts.recs(k) {
+            ids.extend(r.terms.iter().copied());
+        }
+    }
+    if let Some(sub) = &s.sub {
+        ids.insert(sub.root);
+        ids.extend(sub.leaves.iter().copied());
+    }
+    for op in &s.ops {
+        match op {
+            Op::NewTerm { id, .. } => {
+                ids.insert(*id);
+            }
+            Op::AddParent { parent, child } => {
+                ids.insert(*parent);
+                ids.insert(*child);
+            }
+            Op::Annotate { term, .. } => {
+                ids.insert(*term);
+            }
+            _ => {}
+        }
+    }
+    for e in &s.edits {
+        match e {
+            Edit::RenameTerm { id, .. } | Edit::FlipObsolete { id } | Edit::RemoveTerm { id } => {
+                ids.insert(*id);
+            }
+            Edit::SetReplacement { id, to } => {
+                ids.insert(*id);
+                if let Some(t) = to {
+                    ids.insert(*t);
+                }
+            }
+            Edit::AddParent { child, parent } | Edit::RemoveParent { child, parent } => {
+                ids.insert(*child);
+                ids.insert(*parent);
+            }
+            Edit::AddTerm { id, parent, .. } => {
+                ids.insert(*id);
+                if let Some(p) = parent {
+                    ids.insert(*p);
+                }
+            }
+            Edit::AddAnn { term, .. } | Edit::RemoveAnn { term, .. } => {
+                ids.insert(*term);
+            }
+            Edit::AddRec { terms, .. } => ids.extend(terms.iter().copied()),
+            _ => {}
+        }
+    }
+    ids.extend(s.drop_terms.iter().copied());
+    for t in &s.facts.terms {
+        if let Some(r) = t.replacement {
+            ids.insert(r);
+        }
+    }
+    // monotone map that keeps the fixed points in place
+    let fixed = |x: u32| x == 0 || x == 1 || x == 118 || x >= 10_000_000;
+    let mut map: BTreeMap<u32, u32> = BTreeMap::new();
+    let mut next = 2u32;
+    for id in &ids {
+        if fixed(*id) {
+            map.insert(*id, *id);
+            if *id == 118 {
+                next = next.max(119);
+            }
+            continue;
+        }
+        // stay on the correct side of 118
+        if *id < 118 && next >= 118 {
+            return None;
+        }
+        if *id > 118 && next < 119 {
+            next = 119;
+        }
+        map.insert(*id, next);
+        next += 1;
+    }
+    if map.iter().all(|(a, b)| a == b) {
+        return None;
+    }
+    let m = |x: u32| *map.get(&x).unwrap_or(&x);
+    let mut c = s.clone();
+    for t in &mut c.facts.terms {
+        t.id = m(t.id);
+        t.replacement = t.replacement.map(m);
+    }
+    for l in &mut c.facts.isa {
+        *l = (m(l.0), m(l.1));
+    }
+    for k in KINDS {
+        for r in c.facts.recs_mut(k) {
+            for t in &mut r.terms {
+                *t = m(*t);
+            }
+        }
+    }
+    c.facts.normalise();
+    if let Some(sub) = &mut c.sub {
+        sub.root = m(sub.root);
+        for l in &mut sub.leaves {
+            *l = m(*l);
+        }
+    }
+    for op in &mut c.ops {
+        match op {
+            Op::NewTerm { id, .. } => *id = m(*id),
+            Op::AddParent { parent, child } => {
+                *parent = m(*parent);
+                *child = m(*child);
+            }
+            Op::Annotate { term, .. } => *term = m(*term),
+            _ => {}
+        }
+    }
+    for e in &mut c.edits {
+        match e {
+            Edit::RenameTerm { id, .. } | Edit::FlipObsolete { id } | Edit::RemoveTerm { id } => *id = m(*id),
+            Edit::SetReplacement { id, to } => {
+                *id = m(*id);
+                *to = to.map(m);
+            }
+            Edit::AddParent { child, parent } | Edit::RemoveParent { child, parent } => {
+                *child = m(*child);
+                *parent = m(*parent);
+            }
+            Edit::AddTerm { id, parent, .. } => {
+                *id = m(*id);
+                *parent = parent.map(m);
+            }
+            Edit::AddAnn { term, .. } | Edit::RemoveAnn { term, .. } => *term = m(*term),
+            Edit::AddRec { terms, .. } => {
+                for t in terms {
+                    *t = m(*t);
+                }
+            }
+            _ => {}
+        }
+    }
+    for d in &mut c.drop_terms {
+        *d = m(*d);
+    }
+    Some(c)
 }
